@@ -152,9 +152,21 @@ def r13_2(ctx: Ctx) -> None:
     from ..flow import inline_reaching, same_operands
     mcfg = CFG(func)
     stmt_of_ctor = next(n for n in walk_local(func) if isinstance(n, ast.stmt) and any(c is ctor[0] for c in ast.walk(n)))
-    best = [inline_reaching(mcfg, stmt_of_ctor, a) for a in args[3:5]]
-    ok = len(best) == 2 and same_operands(best[0], "min", ["self.evalue", "other.evalue"]) \
-        and same_operands(best[1], "max", ["self.bitscore", "other.bitscore"]) and txt(args[0]) == "self.hit_id"
+    best = []
+    for a in args[3:5]:
+        try:
+            best.append(resolve(a.id) if isinstance(a, ast.Name) else inline_reaching(mcfg, stmt_of_ctor, a))
+        except OutsideFragment:
+            best.append(inline_reaching(mcfg, stmt_of_ctor, a))
+    def extreme(expr: ast.AST, kind: str, operands: List[str]) -> bool:
+        if same_operands(expr, kind, operands):
+            return True
+        try:   # an explicit comparison choosing between the two
+            return decide(rename(expr, {operands[0]: "x", operands[1]: "y"}), parse(f"{kind}(x, y)"))[0]
+        except OutsideFragment:
+            return False
+    ok = len(best) == 2 and extreme(best[0], "min", ["self.evalue", "other.evalue"]) \
+        and extreme(best[1], "max", ["self.bitscore", "other.bitscore"]) and txt(args[0]) == "self.hit_id"
     ctx.ob("R13.2", REF, ctor[0], "HMMResult.merge", "best score", ok,
            "the merged hit carries the best (lowest) e-value and best (highest) score of its fragments", form=txt(ctor[0])[:120])
     # overlap size
@@ -192,9 +204,25 @@ def _greedy_filter(ctx: Ctx) -> None:
     # the hit each new one is compared with: the local (other than the loop variable) whose query_end the loop reads
     prev_names = {n.value.id for n in walk_local(loop) if isinstance(n, ast.Attribute) and n.attr == "query_end"
                   and isinstance(n.value, ast.Name) and n.value.id != cur}
-    margin_names = {t.id for n in walk_local(loop) if isinstance(n, ast.Assign) for t in n.targets if isinstance(t, ast.Name)
-                    and any(isinstance(x, ast.Name) and x.id == lengths for x in ast.walk(n.value))}
     prev = sorted(prev_names)[0] if len(prev_names) == 1 else None
+    # the margin: the local that stands with the previous hit's end in its comparison with the new hit's start
+    margin_names = set()
+    derived = {lengths}   # locals computed from the profile lengths stay names; everything else is read through
+    grew = True
+    while grew:
+        grew = False
+        for n in walk_local(loop):
+            if isinstance(n, ast.Assign) and len(n.targets) == 1 and isinstance(n.targets[0], ast.Name) \
+                    and n.targets[0].id not in derived and any(isinstance(x, ast.Name) and x.id in derived for x in ast.walk(n.value)) \
+                    and "query_" not in txt(n.value):
+                derived.add(n.targets[0].id)
+                grew = True
+    for n in walk_local(loop):
+        if isinstance(n, ast.Compare) and prev is not None:
+            at = next((a for a in _ancestors(n) if isinstance(a, ast.stmt)), loop)
+            resolved = inline_reaching(cfg, at, n, keep={prev, cur} | derived)
+            if f"{prev}.query_end" in txt(resolved) and f"{cur}.query_start" in txt(resolved):
+                margin_names |= {x.id for x in ast.walk(resolved) if isinstance(x, ast.Name)} - {prev, cur}
     margin = sorted(margin_names)[0] if len(margin_names) == 1 else None
     if prev is not None:
         ok, why = _tracks_last_kept(cfg, func, loop, prev, kept_list)
@@ -255,7 +283,20 @@ def _greedy_filter(ctx: Ctx) -> None:
                form=stmt_key(repl))
     values = bound_from(func, margin)
     ok = False
-    if len(values) == 1 and isinstance(values[0], ast.BinOp) and isinstance(values[0].op, ast.Mult):
+    try:
+        # the margin as one expression of the two profile lengths, whatever the spelling (max(), explicit comparison,
+        # named intermediates): decided against 0.2 * max(L_new, L_previous)
+        from ..kernel import cond_env
+        upto = next((i for i, st in enumerate(loop.body) if any(isinstance(x, ast.Compare) and f"{prev}.query_end" in txt(x)
+                                                               for x in ast.walk(st))), len(loop.body))
+        env = cond_env(loop.body, {}, keep={prev, cur})
+        if margin in env:
+            lmap = {f"{lengths}[{cur}.hit_id]": "Lc", f"{lengths}[{prev}.hit_id]": "Lp"}
+            resolved = rename(env[margin], lmap)
+            ok = decide(resolved, parse("0.2 * max(Lc, Lp)"), pre=parse("Lc >= 1 and Lp >= 1"))[0]
+    except (OutsideFragment, TypeError, KeyError):
+        ok = False
+    if not ok and len(values) == 1 and isinstance(values[0], ast.BinOp) and isinstance(values[0].op, ast.Mult):
         sides = [values[0].left, values[0].right]
         consts = [x for x in sides if isinstance(x, ast.Constant)]
         maxes = [x for x in sides if isinstance(x, ast.Call) and call_name(x) == "max"]
@@ -586,7 +627,10 @@ def r13_4_5(ctx: Ctx) -> None:
     ret = [r for r in walk_local(rk) if isinstance(r, ast.Return)]
     param = rk.args.args[0].arg if rk.args.args else "hit"
     want = [f"normalised[{param}]", f"1 / len({param})", f"{param}.protein_start", f"{param}.identifier"]
-    value = inline_reaching(CFG(rk), ret[0], ret[0].value) if len(ret) == 1 else None
+    bound_here = {n.id for n in ast.walk(rk) if isinstance(n, ast.Name) and isinstance(n.ctx, ast.Store)} | \
+        {a.arg for a in rk.args.args}
+    free = {n.id for n in ast.walk(rk) if isinstance(n, ast.Name) and isinstance(n.ctx, ast.Load)} - bound_here
+    value = inline_reaching(CFG(rk), ret[0], ret[0].value, keep=free) if len(ret) == 1 else None
     ok = isinstance(value, ast.Tuple) and [txt(e) for e in value.elts] == want
     ctx.ob("R13.5", HMMER, rk, "remove_overlapping.ranking_stats", "ranking key", ok,
            "hits compete by (normalised score, length, start, identifier): equal keys mean interchangeable hits", form="")
@@ -627,20 +671,29 @@ def r13_6(ctx: Ctx) -> None:
                    "applies to", detail="" if ok else "chosen by a key that ignores the profile length: profiles short (100) and "
                    "long (300), fragments short[10:50) (0.40) and long[100:190) (0.30): nothing is returned although short's fragment "
                    "is over the threshold", form=txt(key)[:80])
+    from ..flow import effective_compare, path_facts as _pf
     for loop in [n for n in walk_local(func) if isinstance(n, ast.For)]:
-        for test in [n for n in walk_local(loop) if isinstance(n, ast.If) and isinstance(n.test, ast.Compare) and len(n.test.ops) == 1
-                     and isinstance(n.test.ops[0], (ast.Gt, ast.GtE, ast.Lt, ast.LtE))]:
-            left, right = test.test.left, test.test.comparators[0]
-            stores = [st for st in test.body if isinstance(st, ast.Assign) and isinstance(st.targets[0], ast.Name)]
-            for measure, best in ((left, right), (right, left)):
-                if isinstance(best, ast.Name) and any(st.targets[0].id == best.id and txt(st.value) == txt(measure) for st in stores):
-                    found += 1
-                    resolved = inline_reaching(cfg, test, measure)
-                    ok = proportional(resolved)
-                    ctx.ob("R13.6", REF, test, qual, f"running best `{best.id}`", ok,
-                           "the fragment offered by the fallback maximises length / profile length, the measure the fallback "
-                           "threshold applies to", detail="" if ok else f"the running best is `{txt(resolved)[:60]}`",
-                           form=txt(resolved)[:100])
+        for store in [n for n in walk_local(loop) if isinstance(n, ast.Assign) and len(n.targets) == 1
+                      and isinstance(n.targets[0], ast.Name)]:
+            best, measure = store.targets[0].id, store.value
+            # a running best: the store happens under a comparison of the stored measure with the best so far
+            governed = False
+            for expr, truth in _pf(cfg, store):
+                cmp_ = effective_compare(expr, truth)
+                if cmp_ is None or cmp_[1] not in ("<", ">", "<=", ">="):
+                    continue
+                sides = {txt(cmp_[0]), txt(cmp_[2])}
+                if sides == {best, txt(measure)}:
+                    governed = True
+            if not governed:
+                continue
+            found += 1
+            resolved = inline_reaching(cfg, store, measure)
+            ok = proportional(resolved)
+            ctx.ob("R13.6", REF, store, qual, f"running best `{best}`", ok,
+                   "the fragment offered by the fallback maximises length / profile length, the measure the fallback "
+                   "threshold applies to", detail="" if ok else f"the running best is `{txt(resolved)[:60]}`",
+                   form=txt(resolved)[:100])
     if found < 1:
         raise AnalysisError(f"{qual}: how the fallback chooses its fragment was not recognised")
 
